@@ -70,7 +70,7 @@ add("C16", "sequential reference map over recorded histories + porcupine lineari
     "DESIGN.md §5 C16")
 add("C17", "reference running aggregates + own predicate evaluator; per-group fire-sequence checker over the sink log",
     "For each group the expected fire sequence (predicate true on the aggregates since the last fire) is compared with the deliveries: no fire while false, fire when true, aggregates over exactly the rows since the last fire, restart from empty, no influence of other groups.",
-    COMMON_NOTE + "Rows where the predicate is UNKNOWN (NULL aggregate) may or may not fire.",
+    COMMON_NOTE + "Rows where the predicate is UNKNOWN (NULL aggregate) may or may not fire, but every group fed alone must fire exactly as it does when mixed with the others; nested-path aggregates and an active group under STATETTL have their own small streams.",
     "DESIGN.md §5 C17")
 add("C18", "lifecycle monitors in isolated child processes under the race detector: process status + log scan, sink-after-Stop flag, goroutine accounting, watchdog with re-run, survival and CEP-flush batches",
     "12 query kinds × 3 strategies × 5 sink behaviours with concurrent Emit/EmitSync/AddSink/GetStats/TriggerWindow/Stop×2 on PRNG schedules with yield-point perturbation: no panic/fatal/race, no hang, no sink invoked after any Stop returned, no engine goroutine left, Emit after Stop silent, rows after a panicking row/sink still processed, CEP flush delivered before Stop returns.",
@@ -80,7 +80,7 @@ add("C19", "conservation / no-duplicate / per-producer-order checker on unique r
     "Producers × buffer × growth/ceiling/threshold × consumer speed × strategy configurations with perturbation at the migration/consumer/sender yield points: processed + input_dropped_count = Emit calls at quiescence, no row twice, block without timeout never drops, capacity ≤ MaxBufferSize, single-producer order preserved; the evidence counts migrations that overlapped a consumer or a sender" + RACE + ".",
     COMMON_NOTE + "Expand configurations without any observed targeted overlap make the run inconclusive rather than passing.",
     "DESIGN.md §5 C19")
-add("C20", "deep-equality monitor on caller maps and delivered rows + solo-vs-paired differential over 13 query kinds",
+add("C20", "deep-equality monitor on caller maps and delivered rows + solo-vs-paired differential over 17 query kinds + twin instances (letter-case twins, operand-type twins) checked against a direct reference",
     "Maps passed to Emit/EmitSync are compared with deep copies at return and after quiescence; rows delivered to a sink are re-compared at the end; an instance's per-id results when paired with a concurrent second instance (same SQL, or different SQL sharing expression texts but differently typed rows) must equal its solo results" + RACE + ".",
-    COMMON_NOTE + "A paired difference must survive a re-run of both sides with a long settle period.",
+    COMMON_NOTE + "A paired difference must survive a re-run of both sides with a long settle period. The solo baseline runs in the same process, so anything a process-wide cache keeps for good is only visible to the twin streams, whose expected values come from a direct reference.",
     "DESIGN.md §5 C20")
